@@ -94,18 +94,43 @@ theorem wideSelect_print (tbl : List (Char × Char)) (f : Field) (fs : List Fiel
     printFill_eq tbl fill fv hfill, e3, e4]
   simp only [bodyText, fromSrcText, List.append_assoc, List.append_nil, List.nil_append, List.cons_append]
 
+/-- `INTO <target>` when it is there, whether or not the caller requires it (`parseTarget_stand` with `required`). -/
+theorem parseTarget_some (required : Bool) (s : PState) (q : Str × Str × Str) (rest : Str) (hq : QualOK q)
+    (hs : RT.Stand s (targetText (some q) ++ ' ' :: (Token.FROM.str ++ ' ' :: rest))) :
+    ∃ s' lx s3, (parseTarget required).run s = .ok ((some q : Option (Str × Str × Str)).map tgtM, s') ∧
+      scanIW.run s' = .ok (lx, s3) ∧ lx.tok = .FROM ∧ s3.Before (' ' :: rest) := by
+  have hkw := scansAs_kw .FROM (' ' :: rest) (by decide +kernel) (WordEnd.blank _)
+  obtain ⟨h1, h2, h3, h4⟩ := hq
+  have e1 : targetText (some q) = [' '] ++ (Token.INTO.str ++ (' ' :: (qualM q).print)) := by
+    show ' ' :: (tx "INTO " ++ (qualM q).print ++ (if (qualM q).name = [] then tx ":MEASUREMENT" else [])) = _
+    have h4' : ¬ (qualM q).name = [] := h4
+    rw [tx_into, if_neg h4']
+    simp
+  rw [e1, from_str] at hs
+  have hs' : RT.Stand s ([' '] ++ (Token.INTO.str ++ (' ' :: ((qualM q).print ++ ' ' :: 'F' :: (['R', 'O', 'M'] ++ ' ' :: rest))))) := by
+    simpa [List.append_assoc] using hs
+  obtain ⟨lx, s1, hsc, ht, _, hb1⟩ := scanIW_stand s [' '] Token.INTO.str _ .INTO [] Gap.blank hs'
+    (scansAs_kw .INTO _ (by decide +kernel) (WordEnd.blank _))
+  obtain ⟨s', hrun, hal⟩ := parseTarget_tail required s s1 lx (qualM q) 'F' (['R', 'O', 'M'] ++ ' ' :: rest) h4 rfl h1 h2 h3
+    (by decide) (by decide) (by decide) hsc ht hb1
+  obtain ⟨s0, hb0, he⟩ := hal.scanIW_eq
+  have hb0' : s0.Before ([' '] ++ (Token.FROM.str ++ ' ' :: rest)) := by
+    rw [from_str]; simpa using hb0
+  obtain ⟨lx3, s3, h3', t3, _, b3⟩ := scanIW_piece0 s0 [' '] Token.FROM.str (' ' :: rest) .FROM [] Gap.blank hb0' hkw
+  exact ⟨s', lx3, s3, hrun, he.trans h3', t3, b3⟩
+
 /-- **`parseSelectStatement` on the printed clauses**, given what `parseSources` does on the printed sources. -/
 theorem selectBody_printW (F : Nat) (sub : Option (P SelectStmt)) (hsub : SubFrame sub) (s : PState)
     (f : Field) (fs : List Field) (tgt : Option (Str × Str × Str)) (srcs : List Source) (srcText : Str)
     (c : Option Expr) (ds : List Expr) (fill : FillOption) (fv : FillValue) (sf : List SortField)
-    (l o sl so : Int) (loc : Option Str) (k : Str)
+    (l o sl so : Int) (loc : Option Str) (k : Str) (tr : Bool) (htr : tr = true → tgt ≠ none)
     (hok : BodyOKW s.lowerTbl f fs tgt c ds fill fv sf l o sl so loc)
     (hsrc : ∀ (s3 : PState) (k' : Str), s3.lowerTbl = s.lowerTbl → Follow k' [.COMMA] →
       s3.Before (' ' :: (srcText ++ k')) →
       wp (parseSourcesWith sub) s3 (fun r s' => r = srcs ∧ RT.Stand s' k') (· = .fuel))
     (hk : Follow k bodyStop)
     (hs : s.Before (bodyText f fs tgt srcText c ds fill fv sf l o sl so loc ++ k)) :
-    wp (parseSelectBody (F + 3) sub false) s
+    wp (parseSelectBody (F + 3) sub tr) s
       (fun st s' => st = wideSelect f fs tgt srcs c ds fill fv sf l o sl so loc ∧ RT.Stand s' k) (· = .fuel) := by
   obtain ⟨hf, ht, hc, hds, hfill, hsf, hl, ho, hsl, hso, hloc⟩ := hok
   have hloc' : ∀ n, loc = some n → plainNameB n = true := by
@@ -161,16 +186,26 @@ theorem selectBody_printW (F : Nat) (sub : Option (P SelectStmt)) (hsub : SubFra
   refine wp_mono (wp_frame (parseFields_frame _) (parseFields_printW (F + 3) s f fs _ hf g1 hs0)) ?_ (fun _ h => h)
   intro flds s1 ⟨⟨hflds, st1⟩, sm1⟩
   subst hflds
-  obtain ⟨s2, lx3, s3, h2, h3, t3, b3⟩ := parseTarget_stand s1 tgt (srcText ++ (whereText c ++
+  have hT : ∃ s2 lx3 s3, (parseTarget tr).run s1 = .ok (tgt.map tgtM, s2) ∧ scanIW.run s2 = .ok (lx3, s3) ∧
+      lx3.tok = .FROM ∧ s3.Before (' ' :: (srcText ++ (whereText c ++
       (groupText ds ++ (fillText fill fv ++ (orderText sf ++ (posText .LIMIT l ++ (posText .OFFSET o ++ (posText .SLIMIT sl ++
-      (posText .SOFFSET so ++ (tzText loc ++ k)))))))))) ht
-    (by simpa [fromSrcText, List.append_assoc] using g2.mono (by decide))
-    (by simpa [fromSrcText, List.append_assoc] using st1)
+      (posText .SOFFSET so ++ (tzText loc ++ k))))))))))) := by
+    cases tr with
+    | false =>
+      exact parseTarget_stand s1 tgt _ ht
+        (by simpa [fromSrcText, List.append_assoc] using g2.mono (by decide))
+        (by simpa [fromSrcText, List.append_assoc] using st1)
+    | true =>
+      cases tgt with
+      | none => exact absurd rfl (htr rfl)
+      | some q =>
+        exact parseTarget_some true s1 q _ (ht q rfl) (by simpa [fromSrcText, List.append_assoc] using st1)
+  obtain ⟨s2, lx3, s3, h2, h3, t3, b3⟩ := hT
   have h3' : (expectTok .FROM ["FROM"]).run s2 = .ok ((), s3) := by
     unfold expectTok
     rw [P.run_bind _ _ _ _ _ h3]
     simp [t3, StateT.run, pure, StateT.pure, Except.pure]
-  have sm3 : RT.Same s s3 := (sm1.trans ((parseTarget_frame false).run h2)).trans (scanIW_frame.run h3)
+  have sm3 : RT.Same s s3 := (sm1.trans ((parseTarget_frame tr).run h2)).trans (scanIW_frame.run h3)
   rw [wp_bind, wp_of_run_ok h2, wp_bind, wp_of_run_ok h3', wp_bind]
   refine wp_mono (wp_frame (parseSourcesWith_frame sub hsub) (hsrc s3 _ sm3.2 (g3.mono (by decide)) b3)) ?_
     (fun _ h => h)
